@@ -1,3 +1,185 @@
 import BB.Driver.Util
-/-! Placeholder driver for C12 (replaced when the model is built). -/
-def main : IO Unit := BB.Driver.loop (fun (s : Unit) _ => (s, "unimplemented")) ()
+import BB.Model.Sharding
+/-!
+Line-protocol driver of the C12 sharding model.  Numbers are decimal.
+
+    splitmix64 <x>                  -> <y>           generated BB.Gen.Rendezvous.splitmix64
+    log2fixed <x>                   -> <y>           generated log2Fixed
+    score <x> <w>                   -> <y>           generated score
+    sel <key>:<keyhash>:<weight>... -> ok | error:empty | error:collision
+                                       (NewRendezvousShardSelector; backends get the same keys, same order)
+    getshard <h>                    -> <index> <key>   (GetShard; key = chosenKey)
+    route <hexhash>                 -> <index>         (getBackendIndexByDigest)
+    fmans <i> missing <digest>*     backend i answers FindMissing with asked ∩ listed
+    fmans <i> raw <digest>*         ... with the listed digests whatever was asked
+    fmans <i> err <code>            ... with an error
+    gpans <i> ok | gpans <i> err <code>     backend i's answer to Get/Put
+    clear                           forget all scripted answers
+    fm <digest>*                    -> calls <i>=[d,d] ... -> ok <d>* | error <code> shard <key>
+    get <digest> | put <digest>     -> backend <i> ok | backend <i> error <code> shard <key>
+
+A digest is `<instance>:<hexhash>:<size>` (instance may be empty).  Output lists are sorted and
+deduplicated (presentation only; the real code works on sorted sets).
+-/
+open BB.Driver BB.Sharding BB.Gen.Rendezvous
+
+inductive FmAns where
+  | missing (s : List Digest)
+  | raw (s : List Digest)
+  | err (code : Nat)
+
+structure S where
+  shards : List (Entry String) := []
+  sel : Option (List (Entry Nat)) := none
+  fmAns : List (Nat × FmAns) := []
+  gpAns : List (Nat × Nat) := []
+
+def splitOnChar (c : Char) (s : String) : List String :=
+  let rec go (cs : List Char) (cur : List Char) (acc : List String) : List String :=
+    match cs with
+    | [] => (String.ofList cur.reverse :: acc).reverse
+    | x :: rest => if x == c then go rest [] (String.ofList cur.reverse :: acc) else go rest (x :: cur) acc
+  go s.toList [] []
+
+def u64? (s : String) : Option UInt64 := do
+  let n ← nat? s
+  if n < 2 ^ 64 then some (UInt64.ofNat n) else none
+
+def u32? (s : String) : Option UInt32 := do
+  let n ← nat? s
+  if n < 2 ^ 32 then some (UInt32.ofNat n) else none
+
+def digest? (tok : String) : Option Digest :=
+  match splitOnChar ':' tok with
+  | [inst, hx, sz] => do
+    let bs ← hexBytes? hx
+    let n ← nat? sz
+    some ⟨inst, bs.map UInt8.ofNat, n⟩
+  | _ => none
+
+def showDigest (d : Digest) : String :=
+  s!"{d.instanceName}:{bytesHex (d.hashBytes.map UInt8.toNat)}:{d.sizeBytes}"
+
+def shard? (tok : String) : Option (Entry String) :=
+  match splitOnChar ':' tok with
+  | [k, kh, w] => do
+    let kh ← u64? kh
+    let w ← u32? w
+    some ⟨kh, w, k⟩
+  | _ => none
+
+def sortDedup (l : List String) : List String :=
+  (l.mergeSort fun a b => !(b < a)).eraseDups
+
+def showDigests (ds : List Digest) : String := ",".intercalate (sortDedup (ds.map showDigest))
+
+def S.access (s : S) (sel : List (Entry Nat)) : Access String Nat Unit :=
+  { keys := s.shards.map Entry.tag
+    sel := sel
+    get := fun i _ => match s.gpAns.lookup i with
+      | some c => .error c
+      | none => .ok ()
+    put := fun i _ _ => match s.gpAns.lookup i with
+      | some c => .error c
+      | none => .ok ()
+    fm := fun i qs => match s.fmAns.lookup i with
+      | some (.missing m) => .ok (qs.filter fun d => m.contains d)
+      | some (.raw m) => .ok m
+      | some (.err c) => .error c
+      | none => .ok [] }
+
+def showErr (e : Option String × Nat) : String :=
+  match e.1 with
+  | some k => s!"error {e.2} shard {k}"
+  | none => s!"error {e.2} shard ?"
+
+def showCall : Call → String
+  | .fm i ds => s!"{i}=[{showDigests ds}]"
+  | .get i d => s!"get{i}={showDigest d}"
+  | .put i d => s!"put{i}={showDigest d}"
+
+def step (s : S) (line : String) : S × String :=
+  match words line with
+  | ["splitmix64", x] =>
+    match u64? x with
+    | some x => (s, toString (splitmix64 x).toNat)
+    | none => (s, "bad-op")
+  | ["log2fixed", x] =>
+    match u64? x with
+    | some x => (s, toString (log2Fixed x).toNat)
+    | none => (s, "bad-op")
+  | ["score", x, w] =>
+    match u64? x, u32? w with
+    | some x, some w => (s, toString (score x w).toNat)
+    | _, _ => (s, "bad-op")
+  | "sel" :: toks =>
+    match toks.mapM shard? with
+    | some ss =>
+      match newSelector ss with
+      | .ok sel => ({ s with shards := ss, sel := some sel }, "ok")
+      | .error .empty => ({ s with shards := [], sel := none }, "error:empty")
+      | .error .collision => ({ s with shards := [], sel := none }, "error:collision")
+    | none => (s, "bad-op")
+  | ["getshard", h] =>
+    match u64? h, s.sel with
+    | some h, some sel =>
+      let k := match chosenKey (rscore h) s.shards with
+        | some k => k
+        | none => "?"
+      (s, s!"{getShard sel h} {k}")
+    | _, _ => (s, "bad-op")
+  | ["route", hx] =>
+    match hexBytes? hx, s.sel with
+    | some bs, some sel => (s, toString (shardOf sel ⟨"", bs.map UInt8.ofNat, 0⟩))
+    | _, _ => (s, "bad-op")
+  | "fmans" :: i :: "missing" :: toks =>
+    match nat? i, toks.mapM digest? with
+    | some i, some ds => ({ s with fmAns := (i, .missing ds) :: s.fmAns }, "ok")
+    | _, _ => (s, "bad-op")
+  | "fmans" :: i :: "raw" :: toks =>
+    match nat? i, toks.mapM digest? with
+    | some i, some ds => ({ s with fmAns := (i, .raw ds) :: s.fmAns }, "ok")
+    | _, _ => (s, "bad-op")
+  | ["fmans", i, "err", c] =>
+    match nat? i, nat? c with
+    | some i, some c => ({ s with fmAns := (i, .err c) :: s.fmAns }, "ok")
+    | _, _ => (s, "bad-op")
+  | ["gpans", i, "ok"] =>
+    match nat? i with
+    | some i => ({ s with gpAns := s.gpAns.filter fun p => p.1 != i }, "ok")
+    | none => (s, "bad-op")
+  | ["gpans", i, "err", c] =>
+    match nat? i, nat? c with
+    | some i, some c => ({ s with gpAns := (i, c) :: s.gpAns }, "ok")
+    | _, _ => (s, "bad-op")
+  | ["clear"] => ({ s with fmAns := [], gpAns := [] }, "ok")
+  | "fm" :: toks =>
+    match toks.mapM digest?, s.sel with
+    | some ds, some sel =>
+      let (calls, res) := findMissing (s.access sel) ds
+      let cs := " ".intercalate (calls.map showCall)
+      match res with
+      | .ok m => (s, s!"calls {cs} -> ok {showDigests m}")
+      | .error e => (s, s!"calls {cs} -> {showErr e}")
+    | _, _ => (s, "bad-op")
+  | ["get", tok] =>
+    match digest? tok, s.sel with
+    | some d, some sel =>
+      let (calls, res) := getOp (s.access sel) d
+      let cs := " ".intercalate (calls.map showCall)
+      match res with
+      | .ok _ => (s, s!"{cs} ok")
+      | .error e => (s, s!"{cs} {showErr e}")
+    | _, _ => (s, "bad-op")
+  | ["put", tok] =>
+    match digest? tok, s.sel with
+    | some d, some sel =>
+      let (calls, res) := putOp (s.access sel) d ()
+      let cs := " ".intercalate (calls.map showCall)
+      match res with
+      | .ok _ => (s, s!"{cs} ok")
+      | .error e => (s, s!"{cs} {showErr e}")
+    | _, _ => (s, "bad-op")
+  | _ => (s, "bad-op")
+
+def main : IO Unit := loop step {}
